@@ -6,6 +6,8 @@
 From stdpp Require Import gmap list.
 From Coq Require Import NArith List.
 From BS Require Import Sync.Types Sync.Model Sync.Observe Sync.Proofs.OptInLemmas Sync.Proofs.OptIn.
+From BSGen Require Schedule.
+From BS Require Sync.Schedule.
 
 (* A component update in the frame's output is either a copy of a received message (host relay)
    or concerns a uuid this peer tracks and a type registered with sync_component on THIS peer. *)
@@ -97,6 +99,22 @@ Theorem C04_unregistered_type_never_travels :
       ~ In (MComp u t v) l.
 Proof. exact OptIn.C04_unregistered_never_travels. Qed.
 
+(* The schedule the model assumes IS the schedule of the source: gen/Schedule.v is regenerated from
+   every add_systems(...) call of /repo/src on every run (system, schedule label, run conditions,
+   position in its chain) and must equal the table Model.run_system was written from; and
+   Model.run_system runs each system exactly when the run conditions the source gives it hold
+   (Sync/Schedule.v). A run condition added, dropped or changed in the source, or a system moved
+   between plugins, breaks the first theorem at build time. *)
+Theorem C04_schedule_matches_source : Schedule.src_schedule = Sync.Schedule.model_schedule.
+Proof. exact Sync.Schedule.schedule_matches_source. Qed.
+
+Theorem C04_systems_run_under_the_source_conditions :
+  forall pr s o cs,
+    p_panic pr = None -> Sync.Schedule.conds_of s = Some cs ->
+    let '(pr', e) := Sync.Schedule.edge_of pr s in
+    exists b, Sync.Schedule.eval_conds e pr cs = Some b /\ run_system pr s o = if b then run_body pr' s o else pr'.
+Proof. exact Sync.Schedule.run_system_follows_schedule. Qed.
+
 Print Assumptions C04_originated_components_opted_in.
 Print Assumptions C04_unregistered_type_never_originated.
 Print Assumptions C04_excluded_component_not_queued.
@@ -106,3 +124,5 @@ Print Assumptions C04_snapshot_opted_in.
 Print Assumptions C04_invariants_of_every_reachable_state.
 Print Assumptions C04_frame_of_reachable_state.
 Print Assumptions C04_unregistered_type_never_travels.
+Print Assumptions C04_schedule_matches_source.
+Print Assumptions C04_systems_run_under_the_source_conditions.
